@@ -33,7 +33,10 @@ OPTS = [{"closeSocket": True, "ignoreAbruptClose": False},
         {"closeSocket": True, "ignoreAbruptClose": False,
          "multi_record": True},
         {"closeSocket": False, "ignoreAbruptClose": True,
-         "multi_record": True}]
+         "multi_record": True},
+        # the client updates its keys between its two messages (TLS 1.3)
+        {"closeSocket": True, "ignoreAbruptClose": False,
+         "keyupdate": True}]
 
 
 def allowed(point, alt):
@@ -384,6 +387,83 @@ def close_alert_case(item):
     return sc.name, item[3:], fails, result
 
 
+SHARED_ENDINGS = ["clean", "fatal", "abrupt"]
+
+
+def shared_session_case(item):
+    """Two connections that share one session (B resumed from A's session
+    while A is still open; session-ID resumption shares the Session object
+    on both ends): every pair of endings in both orders.  A failure on one
+    connection must keep the session non-resumable whatever the other one
+    does afterwards, and a later offer must not be resumed."""
+    idx, tier, seed, first, end_a, end_b = item
+    sc0 = scenarios(tier)[idx]
+    sc = S.Scen(**dict(sc0.as_dict()))
+    sc.cache = True
+    fails = []
+    cache = W.SessionCache()
+    pa, oa = S.connect(sc, seed=seed, cache=cache)
+    if not (oa["C"].status == "ok" and oa["S"].status == "ok"):
+        return sc.name, item[3:], ["first handshake failed"], None
+    sess = pa.c.session
+    pb, ob = S.connect(sc, seed=seed + 1, session=sess, cache=cache,
+                       reset=False)
+    if not (ob["C"].status == "ok" and ob["S"].status == "ok"):
+        return sc.name, item[3:], ["second handshake failed %r" % (ob,)], None
+    if not pb.c.resumed:
+        return sc.name, item[3:], [], ("not-resumed",)
+
+    def end(pair, how):
+        if how == "clean":
+            pair.close("C")
+            pair.read("S", None, 1)
+            pair.close("S")
+        elif how == "fatal":
+            pair.world.c2s.inject(b"\x17\x03\x03\x00\x20" + b"\xa5" * 32)
+            pair.read("S", None, 1)
+            pair.read("C", None, 1)
+        else:
+            pair.world.csock.close()
+            pair.world.ssock.close()
+            pair.read("S", None, 1)
+            pair.read("C", None, 1)
+    order = [("A", pa, end_a), ("B", pb, end_b)]
+    if first == "B":
+        order.reverse()
+    for (_, pair, how) in order:
+        end(pair, how)
+    failed = end_a != "clean" or end_b != "clean"
+    c_res = bool(sess.resumable)
+    try:
+        s_sess = cache[sess.sessionID]
+        s_res = True
+    except KeyError:
+        s_res = False
+    if failed and c_res:
+        fails.append("client session resumable although a connection using "
+                     "it ended with %s" % (end_a if end_a != "clean" else
+                                           end_b))
+    if failed and s_res and not sc.tickets:
+        # (with tickets B is resumed statelessly: the server cannot relate
+        # its failure to the cache entry made for A)
+        fails.append("server cache still serves the session although a "
+                     "connection using it ended with %s" % (
+                         end_a if end_a != "clean" else end_b))
+    if not failed and not (c_res and s_res):
+        fails.append("session not resumable after two orderly closes")
+    # a third connection offering the session
+    p3, o3 = S.connect(sc, seed=seed + 2, session=sess, cache=cache,
+                       reset=False)
+    ok3 = o3["C"].status == "ok" and o3["S"].status == "ok"
+    resumed3 = bool(ok3 and p3.c.resumed)
+    if failed and resumed3:
+        fails.append("session resumed after a connection using it had "
+                     "failed")
+    if not ok3:
+        fails.append("third connection failed: %r" % (o3,))
+    return sc.name, item[3:], fails, (failed, c_res, s_res, resumed3)
+
+
 def hs_alert_case(item):
     """A plaintext alert injected before record k of the handshake flight
     towards the victim (only while records are still in the clear)."""
@@ -445,6 +525,8 @@ def run(res, tier, seed):
     for idx, sc in enumerate(scs):
         for oi, opts in enumerate(OPTS):
             if tier == "quick" and oi in (1, 3) and idx % 3:
+                continue
+            if opts.get("keyupdate") and sc.version < (3, 4):
                 continue
             points, base, results = explore.explore_parallel(
                 make_run, (idx, tier, seed, oi), 1, allowed)
@@ -568,6 +650,26 @@ def run(res, tier, seed):
                           {"part": "close-alert", "scenario": name,
                            "item": it})
     res.section("alerts_while_closing", cases=len(items))
+    items = []
+    for i in range(len(scs)):
+        if scs[i].version >= (3, 4) or scs[i].flavour == "psk":
+            continue
+        for first in ("A", "B"):
+            for ea in SHARED_ENDINGS:
+                for eb in SHARED_ENDINGS:
+                    items.append((i, tier, seed, first, ea, eb))
+    nsh = 0
+    for (name, it, fails, sig) in pmap(shared_session_case, items):
+        nsh += 1
+        res.count()
+        res.outcome(("shared-session", sig))
+        for f in fails:
+            res.violation({"part": "shared-session", "scenario": name,
+                           "what": f[:50]},
+                          {"item": it, "fail": f, "sig": sig},
+                          {"part": "shared-session", "scenario": name,
+                           "item": it})
+    res.section("two_connections_one_session", cases=nsh)
     items = []
     for i in range(len(scs)):
         for direction in ("c2s", "s2c"):
